@@ -105,6 +105,7 @@ impl PTy {
 
 const STRS: &[&str] = &[
     "a", "b", "A", "a b", "a/b", "x=y", "50%", "é", "日本", "a'b", "a\"b", "a\\b", "a:b", "a~b", "[1]", "", " lead", "q?#", "2024", "__HIVE_DEFAULT_PARTITION__", "null", "a\tb", "a+b", "a&b", "ab", "B",
+    "John Doe", "x", "k", "z", "100%", "n/a", "why?", "#1", "two  spaces", "Electronics/Computers",
 ];
 const INTS: &[i64] = &[-1, 0, 1, 2, 5, 10, 12, 2024];
 const DATES: &[i32] = &[18262, 18263, 19000, 0, -1, 19723];
@@ -251,6 +252,9 @@ pub enum Pred {
     CastText(ColRef, Op, u16),
     /// a function of the column compared with something derived from a domain literal
     Func(ColRef, u8, Op, u16),
+    /// "the partition of file k": `p0 = v0 AND … AND p(m-1) = v(m-1)` with the values of file k (monotone index)
+    /// on the first m partition columns
+    EqFile(u16, u8),
     And(Box<Pred>, Box<Pred>),
     Or(Box<Pred>, Box<Pred>),
     Not(Box<Pred>),
@@ -477,6 +481,11 @@ impl Case {
             Pred::And(a, b) => format!("({} AND {})", self.pred_sql(a), self.pred_sql(b)),
             Pred::Or(a, b) => format!("({} OR {})", self.pred_sql(a), self.pred_sql(b)),
             Pred::Not(a) => format!("(NOT {})", self.pred_sql(a)),
+            Pred::EqFile(..) if single => "TRUE".into(),
+            Pred::EqFile(k, m) => {
+                let parts: Vec<String> = self.eq_file(*k, *m).into_iter().map(|(c, v)| format!("{} = {}", Self::pname(c), sql_lit(&v))).collect();
+                format!("({})", parts.join(" AND "))
+            }
             Pred::Cmp(c, ..) | Pred::In(c, ..) | Pred::Between(c, ..) | Pred::IsNull(c, ..) | Pred::CastText(c, ..) | Pred::Func(c, ..) if single && is_p(c) => "TRUE".into(),
             Pred::Cmp(c, op, l) => format!("{} {} {}", self.col_sql(c), op.sql(), l.map(|i| sql_lit(&self.lit(c, i))).unwrap_or("NULL".into())),
             Pred::In(c, ls, neg) => {
@@ -511,27 +520,115 @@ impl Case {
             }
         }
     }
-    /// equality-like literals on partition columns: (column index, value)
-    fn eq_literals(&self, p: &Pred, out: &mut Vec<(usize, V)>) {
-        match p {
-            Pred::And(a, b) | Pred::Or(a, b) => {
-                self.eq_literals(a, out);
-                self.eq_literals(b, out);
-            }
-            Pred::Not(a) => self.eq_literals(a, out),
-            Pred::Cmp(c @ ColRef::P(i), _, Some(l)) => out.push(((*i as usize) % self.n(), self.lit(c, *l))),
-            Pred::In(c @ ColRef::P(i), ls, _) => {
-                for l in ls.iter().chain(std::iter::once(&0u16)) {
-                    out.push(((*i as usize) % self.n(), self.lit(c, *l)));
-                }
-            }
-            Pred::Between(c @ ColRef::P(i), a, b) => {
-                out.push(((*i as usize) % self.n(), self.lit(c, *a)));
-                out.push(((*i as usize) % self.n(), self.lit(c, *b)));
-            }
-            Pred::CastText(c @ ColRef::P(i), _, l) | Pred::Func(c @ ColRef::P(i), _, _, l) => out.push(((*i as usize) % self.n(), self.lit(c, *l))),
-            _ => {}
+    /// (column, value) pairs of `Pred::EqFile(k, m)`
+    fn eq_file(&self, k: u16, m: u8) -> Vec<(usize, V)> {
+        let n = self.n();
+        let m = (m as usize).clamp(1, n);
+        match self.files.get(pick_index(k, self.files.len())) {
+            Some(f) => (0..m).map(|c| (c, self.pval(f, c).0)).collect(),
+            None => vec![],
         }
+    }
+    /// For every partition column the set of values the predicate (negated when `neg`) confines it to, when the
+    /// structure of the predicate shows one (None = not confined). Sound for every rewrite of the simplifier that
+    /// ends in a top-level conjunct `col = literal`: such a conjunct means the predicate implies `col = literal`.
+    fn forced(&self, p: &Pred, neg: bool) -> Vec<Option<Vec<V>>> {
+        let n = self.n();
+        let mut out: Vec<Option<Vec<V>>> = vec![None; n];
+        let col = |i: &u8| (*i as usize) % n;
+        let and = |a: Vec<Option<Vec<V>>>, b: Vec<Option<Vec<V>>>| -> Vec<Option<Vec<V>>> {
+            a.into_iter()
+                .zip(b)
+                .map(|(x, y)| match (x, y) {
+                    (Some(x), Some(y)) => Some(x.into_iter().filter(|v| y.contains(v)).collect()),
+                    (Some(x), None) | (None, Some(x)) => Some(x),
+                    (None, None) => None,
+                })
+                .collect()
+        };
+        let or = |a: Vec<Option<Vec<V>>>, b: Vec<Option<Vec<V>>>| -> Vec<Option<Vec<V>>> {
+            a.into_iter()
+                .zip(b)
+                .map(|(x, y)| match (x, y) {
+                    (Some(mut x), Some(y)) => {
+                        for v in y {
+                            if !x.contains(&v) {
+                                x.push(v);
+                            }
+                        }
+                        Some(x)
+                    }
+                    _ => None,
+                })
+                .collect()
+        };
+        match p {
+            Pred::And(a, b) => {
+                let (x, y) = (self.forced(a, neg), self.forced(b, neg));
+                if neg { or(x, y) } else { and(x, y) }
+            }
+            Pred::Or(a, b) => {
+                let (x, y) = (self.forced(a, neg), self.forced(b, neg));
+                if neg { and(x, y) } else { or(x, y) }
+            }
+            Pred::Not(a) => self.forced(a, !neg),
+            Pred::Cmp(c @ ColRef::P(i), op, Some(l)) if (*op == Op::Eq && !neg) || (*op == Op::Ne && neg) => {
+                out[col(i)] = Some(vec![self.lit(c, *l)]);
+                out
+            }
+            Pred::In(c @ ColRef::P(i), ls, in_neg) if *in_neg == neg => {
+                let mut vs: Vec<V> = vec![];
+                for l in ls.iter().chain(if ls.is_empty() { Some(&0u16) } else { None }) {
+                    let v = self.lit(c, *l);
+                    if !vs.contains(&v) {
+                        vs.push(v);
+                    }
+                }
+                out[col(i)] = Some(vs);
+                out
+            }
+            Pred::Between(c @ ColRef::P(i), a, b) if !neg && self.lit(c, *a) == self.lit(c, *b) => {
+                out[col(i)] = Some(vec![self.lit(c, *a)]);
+                out
+            }
+            // `CAST(col AS VARCHAR) = 'text'` may be unwrapped to `col = literal`
+            Pred::CastText(c @ ColRef::P(i), op, l) if (*op == Op::Eq && !neg) || (*op == Op::Ne && neg) => {
+                out[col(i)] = Some(vec![self.lit(c, *l)]);
+                out
+            }
+            Pred::EqFile(k, m) if !neg => {
+                for (c, v) in self.eq_file(*k, *m) {
+                    out[c] = Some(vec![v]);
+                }
+                out
+            }
+            _ => out,
+        }
+    }
+    /// The listing prefix the unchanged `evaluate_partition_prefix` builds for this case: the leading run of
+    /// partition columns confined to one literal, ended by the first literal DataFusion's encode set changes.
+    /// Returns (column, literal, directory name listed).
+    fn model_prefix(&self) -> Vec<(usize, V, String)> {
+        let Some(p) = &self.pred else { return vec![] };
+        let forced = self.forced(p, false);
+        let mut run = vec![];
+        for (c, f) in forced.iter().enumerate() {
+            match f {
+                Some(vs) if vs.len() == 1 => match df_prefix_spelling(&Self::pname(c), &vs[0]) {
+                    Some(dir) => run.push((c, vs[0].clone(), dir)),
+                    None => break,
+                },
+                _ => break,
+            }
+        }
+        run
+    }
+    /// a leading run of ≥ 2 single-literal columns in which a non-last literal needs escaping
+    fn escaped_non_last_in_run(&self) -> bool {
+        let Some(p) = &self.pred else { return false };
+        let forced = self.forced(p, false);
+        let run: Vec<&V> = forced.iter().map_while(|f| match f { Some(vs) if vs.len() == 1 => Some(&vs[0]), _ => None }).collect();
+        run.len() >= 2 && run[..run.len() - 1].iter().any(|v| df_prefix_spelling("p", v).is_none())
     }
     fn query_sql(&self, table: &str) -> String {
         let n = self.n();
@@ -954,6 +1051,11 @@ fn pred_kinds(p: &Pred, out: &mut BTreeSet<String>) {
             out.insert(format!("pred:{}-col", side(c)));
             out.insert("pred:function".into());
         }
+        Pred::EqFile(..) => {
+            out.insert("pred:partition-col".into());
+            out.insert("pred:eq".into());
+            out.insert("pred:eq-on-leading-columns-of-a-file".into());
+        }
     }
 }
 
@@ -973,6 +1075,7 @@ fn pred_strategy() -> BoxedStrategy<Pred> {
         1 => (colref(), any::<bool>()).prop_map(|(c, n)| Pred::IsNull(c, n)),
         1 => (colref(), op(), any::<u16>()).prop_map(|(c, o, l)| Pred::CastText(c, o, l)),
         2 => (colref(), any::<u8>(), op(), any::<u16>()).prop_map(|(c, f, o, l)| Pred::Func(c, f, o, l)),
+        4 => (any::<u16>(), prop_oneof![1 => Just(1u8), 2 => Just(2u8), 2 => Just(3u8)]).prop_map(|(k, m)| Pred::EqFile(k, m)),
     ];
     let tree = leaf.clone().prop_recursive(3, 8, 2, |inner| {
         prop_oneof![
@@ -1010,7 +1113,7 @@ impl Property for C27 {
         "c27"
     }
     fn strategy(&self, tier: Tier) -> BoxedStrategy<Case> {
-        let pty = prop_oneof![3 => Just(PTy::Utf8), 2 => Just(PTy::Int), 1 => Just(PTy::Date)];
+        let pty = prop_oneof![4 => Just(PTy::Utf8), 2 => Just(PTy::Int), 1 => Just(PTy::Date)];
         (
             prop::collection::vec(pty, 1..4),
             prop::collection::vec(file_strategy(tier), 1..tier.pick(13, 25)),
@@ -1039,7 +1142,7 @@ impl Property for C27 {
             .boxed()
     }
     fn budget(&self, tier: Tier) -> Budget {
-        Budget::new(tier.pick(480, 15_000), tier.pick(8, 16)).min_nontrivial(tier.pick(120, 4_000)).case_timeout(180)
+        Budget::new(tier.pick(2_400, 40_000), tier.pick(8, 16)).min_nontrivial(tier.pick(600, 10_000)).case_timeout(180)
     }
     fn rule(&self) -> String {
         "1-3 typed partition columns, 1-12 harness-written files in a hive layout with 6 directory spellings per value, layout noise, dir/glob/single-file location, \
@@ -1061,22 +1164,17 @@ impl Property for C27 {
         if c.pcols.is_empty() || c.files.is_empty() || c.single().is_some() {
             return None;
         }
-        let p = c.pred.as_ref()?;
-        let mut lits = vec![];
-        c.eq_literals(p, &mut lits);
-        if lits.is_empty() {
+        c.pred.as_ref()?;
+        // the open defect: a directory spelled differently from the directory name DataFusion derives from the
+        // literal, for a column of the prefix it really lists, in a table file carrying exactly those values
+        let run = c.model_prefix();
+        if run.is_empty() {
             return None;
         }
         let laid = c.layout();
         for l in laid.iter().filter(|l| l.in_table) {
-            for (col, lit) in &lits {
-                if l.values.get(*col) == Some(lit) {
-                    if let Some(sp) = df_prefix_spelling(&Case::pname(*col), lit) {
-                        if l.dirs.get(*col) != Some(&sp) {
-                            return Some("prefix-alternate-spelling".into());
-                        }
-                    }
-                }
+            if run.iter().all(|(col, lit, _)| l.values.get(*col) == Some(lit)) && run.iter().any(|(col, _, dir)| l.dirs.get(*col) != Some(dir)) {
+                return Some("prefix-alternate-spelling".into());
             }
         }
         None
@@ -1117,6 +1215,12 @@ impl Property for C27 {
             _ => "format:csv",
         });
         r = r.label(format!("query={}", c.query % 6));
+        if c.single().is_none() && c.escaped_non_last_in_run() {
+            r = r.label("eq-run:escaped-value-in-non-last-column");
+        }
+        if c.single().is_none() && !c.model_prefix().is_empty() {
+            r = r.label(format!("listing-prefix-columns={}", c.model_prefix().len()));
+        }
         let mut kinds = BTreeSet::new();
         match &c.pred {
             Some(p) => pred_kinds(p, &mut kinds),
